@@ -11,6 +11,8 @@ use std::io::Cursor;
 pub struct LockCtx {
     a: *mut RLN,
     b: Option<RLN>,
+    /// output buffers the FFI handed out earlier, with the bytes they held then: they belong to the caller and must not change
+    handed: Vec<(*const u8, usize, Vec<u8>)>,
 }
 
 fn buf(data: &[u8]) -> ffi::Buffer {
@@ -44,7 +46,7 @@ type Res = String;
 
 impl LockCtx {
     pub fn new() -> Self {
-        LockCtx { a: std::ptr::null_mut(), b: None }
+        LockCtx { a: std::ptr::null_mut(), b: None, handed: Vec::new() }
     }
     fn ensure(&mut self) {
         if self.a.is_null() {
@@ -75,12 +77,27 @@ impl LockCtx {
                 self.a = std::ptr::null_mut();
                 self.b = None;
             }
+            self.handed.clear();
             self.ensure();
             return Some("same ok".into());
         }
         self.ensure();
         let a = self.a;
-        let outb = |ok: bool, ob: &ffi::Buffer| -> Res { if ok { format!("ok {}", show_bytes(&read(ob))) } else { "err".into() } };
+        // every buffer handed out by an earlier call still holds what it held (the caller owns it; zerokit leaks the vector on purpose)
+        for (p, n, was) in self.handed.iter() {
+            let now = if *n == 0 { Vec::new() } else { unsafe { std::slice::from_raw_parts(*p, *n) }.to_vec() };
+            if now != *was {
+                return Some("DIFF an output buffer handed out by an earlier FFI call changed its content after a later call".to_string());
+            }
+        }
+        let kept = std::cell::RefCell::new(Vec::<(*const u8, usize, Vec<u8>)>::new());
+        let outb = |ok: bool, ob: &ffi::Buffer| -> Res {
+            if ok {
+                let bytes = read(ob);
+                if ob.len > 0 && ob.ptr != SENTINEL.as_ptr() { kept.borrow_mut().push((ob.ptr, ob.len, bytes.clone())); }
+                format!("ok {}", show_bytes(&bytes))
+            } else { "err".into() }
+        };
         let outc = |r: color_eyre::Result<()>, c: Cursor<Vec<u8>>| -> Res { if r.is_ok() { format!("ok {}", show_bytes(&c.into_inner())) } else { "err".into() } };
         let flag = |ok: bool| -> Res { if ok { "ok".into() } else { "err".into() } };
         let res = |r: color_eyre::Result<()>| -> Res { if r.is_ok() { "ok".into() } else { "err".into() } };
@@ -228,6 +245,10 @@ impl LockCtx {
             }
             _ => return None,
         };
+        let newly: Vec<(*const u8, usize, Vec<u8>)> = kept.borrow().clone();
+        drop(outb);
+        self.handed.extend(newly);
+        if self.handed.len() > 64 { let k = self.handed.len() - 64; self.handed.drain(..k); }
         let (sa, sb) = self.state();
         Some(if ra == rb && sa == sb { format!("same {}", ra) } else { format!("DIFF ffi={} api={} state_ffi={} state_api={}", ra, rb, sa, sb) })
     }
